@@ -178,7 +178,7 @@ def _alternatives(e: ast.AST, inv) -> List[Tuple[Optional[str], bool, ast.AST]]:
 def rule_r3(ctx) -> List[R.Inst]:
     M = ctx.M
     rid = "C04.R3"
-    fn = M.fn(f"{BMSMAP}._read_notes")
+    fn = M.nfn(f"{BMSMAP}._read_notes")
     hdr = M.fn(f"{BMSMAP}._read_file_header")
     file = M.mods[fn.mod].rel
     inv = inverted_maps(fn.node)
@@ -526,7 +526,7 @@ def rule_r4(ctx) -> List[R.Inst]:
 def rule_r5(ctx) -> List[R.Inst]:
     M = ctx.M
     rid = "C04.R5"
-    fn = M.fn(f"{BMSMAP}._read_notes")
+    fn = M.nfn(f"{BMSMAP}._read_notes")
     file = M.mods[fn.mod].rel
     insts = []
     stmts = ordered_stmts(fn.node.body)
@@ -597,7 +597,7 @@ def rule_r5(ctx) -> List[R.Inst]:
 def rule_r6(ctx) -> List[R.Inst]:
     M = ctx.M
     rid = "C04.R6"
-    fn = M.fn(f"{BMSMAP}._read_notes")
+    fn = M.nfn(f"{BMSMAP}._read_notes")
     file = M.mods[fn.mod].rel
     loop = _main_loop(fn)
     has_state = any(isinstance(n, ast.Call) and call_name(n) == "pop" for n in ast.walk(loop))
@@ -633,7 +633,7 @@ def rule_r7(ctx) -> List[R.Inst]:
     """position formula and line slicing"""
     M = ctx.M
     rid = "C04.R7"
-    fn = M.fn(f"{BMSMAP}._read_notes")
+    fn = M.nfn(f"{BMSMAP}._read_notes")
     rd = M.fn(f"{BMSMAP}.read")
     file = M.mods[fn.mod].rel
     loop = _main_loop(fn)
@@ -745,7 +745,7 @@ def rule_r8(ctx) -> List[R.Inst]:
     """parallel sequences: which accumulator field reaches which constructor keyword"""
     M = ctx.M
     rid = "C04.R8"
-    fn = M.fn(f"{BMSMAP}._read_notes")
+    fn = M.nfn(f"{BMSMAP}._read_notes")
     file = M.mods[fn.mod].rel
     insts = []
     # accumulators: which buffer holds hits / holds, decided by the namedtuple appended to it in the loop
